@@ -199,6 +199,24 @@ func c17(r *eng.Run) {
 			}
 		}
 	}
+	// long strings (size thresholds of scratch buffers / alternative code paths) with runs of two
+	// and three adjacent invalid bytes at the start, in the middle and at the end
+	for _, L := range []int{1000, 4095, 4096, 4097, 5000, 8192, 8193, 65536, 65537, 70000} {
+		for _, run := range []string{"\xe2\x82", "\xff\xfe", "\xf0\x9f\x98", "\xc0\x80\x80\x80", "\xed\xa0\x80"} {
+			for _, pos := range []int{0, L / 2, L - len(run)} {
+				b := bytes.Repeat([]byte("a"), L)
+				copy(b[pos:], run)
+				one(b, "long-string-with-invalid-run")
+				sweep++
+				str := string(b)
+				want := string(ref.SanitizeUTF8(b))
+				m := rjson.StdLibCompatibleMap(map[string]interface{}{str: []interface{}{str}})
+				if !ref.SameTree(m, map[string]interface{}{want: []interface{}{want}}) {
+					r.Violation(eng.Replay{Engine: "bytes", Entry: "StdLibCompatibleMap", Sig: fmt.Sprintf("map-long-string/L=%d/pos=%d/%q", L, pos, run), InputB64: b, Expected: "sanitised key and value (one U+FFFD per invalid byte)", Got: fmt.Sprintf("key/value lengths differ from %d", len(want))})
+				}
+			}
+		}
+	}
 	// block boundaries: a multi-byte rune straddling every offset round 64/128/256/512, in a
 	// string that also contains an invalid byte (so that no whole-string fast path applies)
 	for _, B := range []int{64, 128, 256, 512} {
